@@ -497,14 +497,21 @@ theorem c16_parseItems_of (items : List (List Tok)) (is : List Item) (ps : List 
 
 /-! ### the generated `__init__` and helper methods, for any signature with mandatory parameters first -/
 
-def kwInfos (kw : Bool) : List PInfo := if kw then [⟨"kw", .vk, false⟩] else []
-def kwItems (kw : Bool) : List Item := if kw then [.vk "kw"] else []
-def kwToks (kw : Bool) : List (List Tok) := if kw then [kwItem] else []
+def kwInfos (kw : Bool) (n : String) : List PInfo := if kw then [⟨n, .vk, false⟩] else []
+def kwItems (kw : Bool) (n : String) : List Item := if kw then [.vk n] else []
+def kwToks (kw : Bool) (n : String) : List (List Tok) := if kw then [kwItem n] else []
 
-theorem c16_kw_classify (kw : Bool) : classifyAll (kwToks kw) = some (kwItems kw) := by
-  cases kw <;> decide
+theorem c16_kwName_ok (ps : List Param) : identOk (kwName ps) = true := by
+  unfold kwName
+  split <;> decide
 
-theorem c16_kw_flat (kw : Bool) : ∀ y ∈ kwToks kw, Flat y := by
+theorem c16_kw_classify (kw : Bool) (n : String) (hn : identOk n = true) :
+    classifyAll (kwToks kw n) = some (kwItems kw n) := by
+  cases kw
+  · rfl
+  · simp [kwToks, kwItems, kwItem, classifyAll, classify, hn, annPartOk]
+
+theorem c16_kw_flat (kw : Bool) (n : String) : ∀ y ∈ kwToks kw n, Flat y := by
   cases kw
   · simp [kwToks]
   · intro y hy
@@ -512,26 +519,34 @@ theorem c16_kw_flat (kw : Bool) : ∀ y ∈ kwToks kw, Flat y := by
     subst hy
     exact c16_flat_cons rfl (c16_flat_neutral rfl)
 
-theorem c16_kw_ne (kw : Bool) : ∀ y ∈ kwToks kw, y ≠ [] := by
+theorem c16_kw_ne (kw : Bool) (n : String) : ∀ y ∈ kwToks kw n, y ≠ [] := by
   cases kw <;> simp [kwToks, kwItem]
 
-theorem c16_orderGo_kwEnd (s : Sect) (hs : s ≠ .done ∧ s ≠ .kw true) (seenD : Bool) (acc : List PInfo) (kw : Bool) :
-    orderGo s seenD acc (kwItems kw) = some (acc.reverse ++ kwInfos kw) := by
+theorem c16_orderGo_kwEnd (s : Sect) (hs : s ≠ .done ∧ s ≠ .kw true) (seenD : Bool) (acc : List PInfo) (kw : Bool)
+    (n : String) :
+    orderGo s seenD acc (kwItems kw n) = some (acc.reverse ++ kwInfos kw n) := by
   cases kw
   · simp [kwItems, kwInfos, orderGo, hs.2]
   · simp [kwItems, kwInfos, orderGo, hs.1, hs.2]
 
+theorem c16_helperFields_sub {hk : Helper} {ps : List Param} {p : Param} (h : p ∈ helperFields hk ps) : p ∈ ps := by
+  unfold helperFields at h
+  cases hk
+  · exact h
+  · exact (List.mem_filter.mp h).1
+  · exact (List.mem_filter.mp h).1
+
 theorem c16_init_parses (anns : String → Ann) (s : Sig) (hm : mandatoryFirst s.params = true)
     (h : textDomain anns s.params = true) :
     parseDef (initToks anns s) =
-      some ⟨"__init__", ⟨"self", .pk, false⟩ :: (s.params.map pkInfo ++ kwInfos s.kw)⟩ := by
+      some ⟨"__init__", ⟨"self", .pk, false⟩ :: (s.params.map pkInfo ++ kwInfos s.kw (kwName s.params))⟩ := by
   have hdom : ∀ p ∈ s.params, identOk p.name = true ∧ (anns p.name).wf = true := by
     intro p hp
     have := List.all_eq_true.mp h p hp
     simpa using this
   have hitems : [[Tok.name "self"]] ++ s.params.map (fun p => fieldItem (anns p.name) p) ++
-      (if s.kw then [kwItem] else []) =
-      [Tok.name "self"] :: (s.params.map (fun p => fieldItem (anns p.name) p) ++ kwToks s.kw) := by
+      (if s.kw then [kwItem (kwName s.params)] else []) =
+      [Tok.name "self"] :: (s.params.map (fun p => fieldItem (anns p.name) p) ++ kwToks s.kw (kwName s.params)) := by
     simp [kwToks]
   unfold initToks
   rw [hitems]
@@ -541,17 +556,17 @@ theorem c16_init_parses (anns : String → Ann) (s : Sig) (hm : mandatoryFirst s
     rcases hy with rfl | ⟨p, _, rfl⟩ | hy
     · exact c16_flat_neutral rfl
     · exact c16_flat_fieldItem _ _
-    · exact c16_kw_flat _ y hy
-  · apply c16_parseItems_of _ (.param "self" false :: (s.params.map toItem ++ kwItems s.kw))
+    · exact c16_kw_flat _ _ y hy
+  · apply c16_parseItems_of _ (.param "self" false :: (s.params.map toItem ++ kwItems s.kw (kwName s.params)))
     · intro y hy
       simp only [List.mem_cons, List.mem_append, List.mem_map] at hy
       rcases hy with rfl | ⟨p, _, rfl⟩ | hy
       · simp
       · exact c16_fieldItem_ne_nil _ _
-      · exact c16_kw_ne _ y hy
+      · exact c16_kw_ne _ _ y hy
     · simp
     · apply c16_classifyAll_cons _ _ _ _ (by decide)
-      apply c16_classifyAll_append _ _ _ _ _ (c16_kw_classify _)
+      apply c16_classifyAll_append _ _ _ _ _ (c16_kw_classify _ _ (c16_kwName_ok _))
       exact c16_classifyAll_map _ _ _ (fun p hp => c16_classify_fieldItem _ _ (hdom p hp).1 (hdom p hp).2)
     · show orderGo .p0 false [] _ = _
       simp only [orderGo, true_or, if_true, Bool.not_false, Bool.and_false, Bool.false_eq_true, if_false,
@@ -580,34 +595,35 @@ theorem c16_toItemD (ps : List Param) : ps.map toItemD = (allDefault ps).map toI
 theorem c16_helper_parses (anns : String → Ann) (hk : Helper) (s : Sig)
     (h : textDomain anns s.params = true) :
     parseDef (helperToks anns hk s) =
-      some ⟨helperName hk, helperLeadInfos hk ++ (s.params.map (helperInfo hk) ++ kwInfos s.kw)⟩ := by
+      some ⟨helperName hk, helperLeadInfos hk ++ ((helperFields hk s.params).map (helperInfo hk) ++ kwInfos s.kw (kwName s.params))⟩ := by
   have hdom : ∀ p ∈ s.params, identOk p.name = true ∧ (anns p.name).wf = true := by
     intro p hp
     have := List.all_eq_true.mp h p hp
     simpa using this
-  have hcl : classifyAll (s.params.map (fun p => helperItem (anns p.name) p) ++ kwToks s.kw) =
-      some ((allDefault s.params).map toItem ++ kwItems s.kw) := by
+  have hcl : classifyAll ((helperFields hk s.params).map (fun p => helperItem (anns p.name) p) ++ kwToks s.kw (kwName s.params)) =
+      some ((allDefault (helperFields hk s.params)).map toItem ++ kwItems s.kw (kwName s.params)) := by
     rw [← c16_toItemD]
-    apply c16_classifyAll_append _ _ _ _ _ (c16_kw_classify _)
-    exact c16_classifyAll_map _ _ _ (fun p hp => c16_classify_helperItem _ _ (hdom p hp).1 (hdom p hp).2)
-  have hfl : ∀ y ∈ s.params.map (fun p => helperItem (anns p.name) p) ++ kwToks s.kw, Flat y := by
+    apply c16_classifyAll_append _ _ _ _ _ (c16_kw_classify _ _ (c16_kwName_ok _))
+    exact c16_classifyAll_map _ _ _ (fun p hp => c16_classify_helperItem _ _ (hdom p (c16_helperFields_sub hp)).1
+      (hdom p (c16_helperFields_sub hp)).2)
+  have hfl : ∀ y ∈ (helperFields hk s.params).map (fun p => helperItem (anns p.name) p) ++ kwToks s.kw (kwName s.params), Flat y := by
     intro y hy
     simp only [List.mem_append, List.mem_map] at hy
     rcases hy with ⟨p, _, rfl⟩ | hy
     · exact c16_flat_helperItem _ _
-    · exact c16_kw_flat _ y hy
-  have hne : ∀ y ∈ s.params.map (fun p => helperItem (anns p.name) p) ++ kwToks s.kw, y ≠ [] := by
+    · exact c16_kw_flat _ _ y hy
+  have hne : ∀ y ∈ (helperFields hk s.params).map (fun p => helperItem (anns p.name) p) ++ kwToks s.kw (kwName s.params), y ≠ [] := by
     intro y hy
     simp only [List.mem_append, List.mem_map] at hy
     rcases hy with ⟨p, _, rfl⟩ | hy
     · exact c16_helperItem_ne_nil _ _
-    · exact c16_kw_ne _ y hy
-  have hall : ∀ p ∈ allDefault s.params, p.hasDefault = true := by
+    · exact c16_kw_ne _ _ y hy
+  have hall : ∀ p ∈ allDefault (helperFields hk s.params), p.hasDefault = true := by
     intro p hp
     simp only [allDefault, List.mem_map] at hp
     obtain ⟨q, _, rfl⟩ := hp
     rfl
-  have hkw : (if s.kw then [kwItem] else []) = kwToks s.kw := rfl
+  have hkw : (if s.kw then [kwItem (kwName s.params)] else []) = kwToks s.kw (kwName s.params) := rfl
   unfold helperToks
   rw [hkw, List.append_assoc]
   cases hk with
@@ -618,7 +634,7 @@ theorem c16_helper_parses (anns : String → Ann) (hk : Helper) (s : Sig)
       rcases List.mem_cons.mp hy with rfl | hy
       · exact c16_flat_neutral rfl
       · exact hfl y hy
-    · apply c16_parseItems_of _ (.param "self" false :: ((allDefault s.params).map toItem ++ kwItems s.kw))
+    · apply c16_parseItems_of _ (.param "self" false :: ((allDefault (helperFields .shallowClone s.params)).map toItem ++ kwItems s.kw (kwName s.params)))
       · intro y hy
         rcases List.mem_cons.mp hy with rfl | hy
         · simp
@@ -643,7 +659,7 @@ theorem c16_helper_parses (anns : String → Ann) (hk : Helper) (s : Sig)
       · exact c16_flat_cons rfl (c16_flat_cons rfl (c16_flat_append (c16_flat_ann _) (c16_flat_dfltPart (some noneAnn))))
       · exact hfl y hy
     · apply c16_parseItems_of _ (.param "cls" false :: .param "source_object" false :: .star ::
-          .param "ignore_props" true :: ((allDefault s.params).map toItem ++ kwItems s.kw))
+          .param "ignore_props" true :: ((allDefault (helperFields .fromOtherClass s.params)).map toItem ++ kwItems s.kw (kwName s.params)))
       · intro y hy
         simp only [List.mem_cons] at hy
         rcases hy with rfl | rfl | rfl | rfl | hy
@@ -673,7 +689,7 @@ theorem c16_helper_parses (anns : String → Ann) (hk : Helper) (s : Sig)
       · exact c16_flat_cons rfl (c16_flat_cons rfl (c16_flat_append (c16_flat_ann _) (c16_flat_dfltPart (some noneAnn))))
       · exact hfl y hy
     · apply c16_parseItems_of _ (.param "cls" false :: .param "source_object" true :: .star ::
-          .param "ignore_props" true :: ((allDefault s.params).map toItem ++ kwItems s.kw))
+          .param "ignore_props" true :: ((allDefault (helperFields .fromTrustedData s.params)).map toItem ++ kwItems s.kw (kwName s.params)))
       · intro y hy
         simp only [List.mem_cons] at hy
         rcases hy with rfl | rfl | rfl | rfl | hy
@@ -1041,16 +1057,16 @@ theorem c16_dupFree_append (xs ys : List String) :
   · rintro ⟨⟨h1, h2⟩, h3⟩
     exact ⟨h1, h2, fun a ha b hb e => h3 a ha (e ▸ hb)⟩
 
-/-- the fixed parameter names a field keyword can collide with -/
-def fixedNames (lead : List String) (kw : Bool) : List String := lead ++ (if kw then ["kw"] else [])
+/-- the fixed parameter names a field keyword can collide with; `k` is the name of the var-keyword -/
+def fixedNames (lead : List String) (kw : Bool) (k : String) : List String := lead ++ (if kw then [k] else [])
 
 /-- parameter names of a generated method are pairwise distinct iff no field is named like a fixed parameter -/
-theorem c16_dupFree_method (lead : List String) (fs : List String) (kw : Bool) (hl : dupFree lead = true)
-    (hk : lead.contains "kw" = false) (hf : fs.Nodup) :
-    dupFree (lead ++ (fs ++ (if kw then ["kw"] else []))) = fs.all (fun n => !(fixedNames lead kw).contains n) := by
+theorem c16_dupFree_method (lead : List String) (fs : List String) (kw : Bool) (k : String) (hl : dupFree lead = true)
+    (hk : lead.contains k = false) (hf : fs.Nodup) :
+    dupFree (lead ++ (fs ++ (if kw then [k] else []))) = fs.all (fun n => !(fixedNames lead kw k).contains n) := by
   rw [Bool.eq_iff_iff, c16_dupFree_iff]
   have hl' := (c16_dupFree_iff lead).mp hl
-  have hk' : "kw" ∉ lead := by simpa using hk
+  have hk' : k ∉ lead := by simpa using hk
   cases kw
   · simp only [fixedNames, Bool.false_eq_true, if_false, List.append_nil, List.nodup_append, hl', hf, true_and,
       List.all_eq_true, Bool.not_eq_true', List.contains_eq_mem, decide_eq_false_iff_not]
@@ -1062,7 +1078,7 @@ theorem c16_dupFree_method (lead : List String) (fs : List String) (kw : Bool) (
       List.nodup_cons, List.not_mem_nil, not_false_eq_true, List.nodup_nil, and_self]
     constructor
     · rintro ⟨h1, h2⟩ n hn
-      exact ⟨fun hln => h2 n hln n (Or.inl hn) rfl, fun e => h1 n hn "kw" rfl e⟩
+      exact ⟨fun hln => h2 n hln n (Or.inl hn) rfl, fun e => h1 n hn k rfl e⟩
     · intro h
       refine ⟨fun a ha b hb e => (h a ha).2 (e.trans hb), fun a ha b hb e => ?_⟩
       rcases hb with hb | hb
@@ -1105,5 +1121,39 @@ theorem c16_nodup_stubArgs (dflt : Bool) (c : ClassInfo) : ((stubArgs dflt c).ma
   have hsub : ((allFields c).filter (fun f => !f.isConst)).map (·.name) |>.Sublist ((allFields c).map (·.name)) :=
     List.Sublist.map _ List.filter_sublist
   exact hsub.nodup (nodupN_allFields c)
+
+/-! ### `get_type_info` renders well-formed annotations -/
+
+mutual
+theorem c16_typeInfo_wf : (t : FTy) → FTy.wf t = true → (typeInfo t).wf = true
+  | .leaf a, h => by simpa [FTy.wf, typeInfo] using h
+  | .opt x, h => by
+    simp only [FTy.wf] at h
+    simp only [typeInfo, Ann.wf, Ann.wfL, c16_typeInfo_wf x h, Bool.and_true, List.isEmpty_cons, Bool.not_false]
+    decide
+  | .union xs, h => by
+    simp only [FTy.wf, Bool.and_eq_true] at h
+    have hl := c16_typeInfoL_wf xs h.2
+    have hne : (typeInfoL xs).isEmpty = false := by
+      cases xs with
+      | nil => simp at h
+      | cons x rest => simp [typeInfoL]
+    simp only [typeInfo, Ann.wf, hl, hne, Bool.and_true, Bool.not_false]
+    decide
+  | .map xs, h => by
+    simp only [FTy.wf, Bool.and_eq_true] at h
+    have hl := c16_typeInfoL_wf xs h.2
+    have hne : (typeInfoL xs).isEmpty = false := by
+      cases xs with
+      | nil => simp at h
+      | cons x rest => simp [typeInfoL]
+    simp only [typeInfo, Ann.wf, hl, hne, Bool.and_true, Bool.not_false]
+    decide
+theorem c16_typeInfoL_wf : (ts : List FTy) → FTy.wfL ts = true → Ann.wfL (typeInfoL ts) = true
+  | [], _ => rfl
+  | x :: rest, h => by
+    simp only [FTy.wfL, Bool.and_eq_true] at h
+    simp only [typeInfoL, Ann.wfL, c16_typeInfo_wf x h.1, c16_typeInfoL_wf rest h.2, Bool.and_self]
+end
 
 end Typedpy.StubText
